@@ -8,8 +8,9 @@
    supervector index is c.  A configuration is a record
        [jfa, m, s, U, V, D  : per component  (UBM mean, UBM variance, subspace entries),
         N, F                : per session, per component (zeroth / first order statistics),
-        enroll              : BOOLEAN, EnrollIter is taken on this configuration (its three chained
-                              updates stay within 32 bits only on part of the domain)]
+        enroll              : "no" | "yes" | "J": whether EnrollIter is taken on this configuration and
+                              whether J is compared along it (three chained updates stay within 32
+                              bits only on part of the domain; the harness passes validated lists)]
    and the model is   mean_hc = m_c + V_c y + U_c x_h + D_c z_c,   y, x_h, z_c ~ N(0,1),
    observations of component c have variance s_c.  ISV has no speaker factor (jfa = FALSE,
    V = 0, y stays 0).
@@ -124,7 +125,7 @@ UpdZ == /\ last = "init"
         /\ last' = "UpdZ" /\ UNCHANGED <<cfg, y, x>>
 AtZero == IsZero(y) /\ (\A h \in Hs(cfg) : IsZero(x[h])) /\ (\A c \in Cs(cfg) : IsZero(z[c]))
 EnrollIter ==
-    /\ last = "init" /\ cfg.enroll /\ AtZero
+    /\ last = "init" /\ cfg.enroll # "no" /\ AtZero
     /\ LET y1 == IF cfg.jfa THEN NewY(cfg, x, z) ELSE Zero
            x1 == NewX(cfg, y1, z)
            z1 == NewZ(cfg, y1, x1)
@@ -137,10 +138,10 @@ Spec == Init /\ [][Next]_vars
 \* ------------------------------------------------------------------ checked formulas (C07)
 \* the block precisions (minus the second derivatives of J) are positive: a vanishing block
 \* gradient is the block maximum
-PrecisionPositive ==
-    /\ IsPos(PrecY(cfg))
-    /\ \A h \in Hs(cfg) : IsPos(PrecX(cfg, h))
-    /\ \A c \in Cs(cfg) : IsPos(PrecZ(cfg, c))
+PrecisionPositive ==        \* (stated on successor states: initial states are checked by a single thread)
+    last # "init" => /\ IsPos(PrecY(cfg))
+                     /\ \A h \in Hs(cfg) : IsPos(PrecX(cfg, h))
+                     /\ \A c \in Cs(cfg) : IsPos(PrecZ(cfg, c))
 \* after each update the gradient of J in the updated block vanishes
 BlockIsArgmax ==
     /\ last = "UpdY" => IsZero(GradY(cfg, y, x, z))
@@ -161,7 +162,7 @@ JNonDecreasing ==
     [][last' \in {"UpdY", "UpdX", "UpdZ"} => LeqL(J(cfg, y, x, z), J(cfg, y', x', z'))]_vars
 \* ... nor along the first enrolment iteration (small instances only: J' leaves 32 bits otherwise)
 JNonDecreasingEnroll ==
-    [][last' = "EnrollIter" => LeqL(J(cfg, y, x, z), J(cfg, y', x', z'))]_vars
+    [][last' = "EnrollIter" /\ cfg.enroll = "J" => LeqL(J(cfg, y, x, z), J(cfg, y', x', z'))]_vars
 \* features x -> a x + b: m -> a m + b, s -> a^2 s, (U, V, D) -> a (U, V, D), F -> a F + b N;
 \* the latent updates and J do not change
 Aff(k, a, b) ==
